@@ -195,8 +195,10 @@ def main():
     os.makedirs(os.path.dirname(OUT), exist_ok=True)
     old = open(OUT).read() if os.path.exists(OUT) else None
     if old != txt:
-        with open(OUT, "w") as fo:
+        _tmp = OUT + ".tmp%d" % os.getpid()
+        with open(_tmp, "w") as fo:
             fo.write(txt)
+        os.replace(_tmp, OUT)  # atomic: a concurrent coqc never sees a partial file
     return {"bond_order_symbols": bos, "organic": len(org), "aromatic": len(aro), "valence_rows": len(val),
             "elements": len(elements), "invalid_chars": invalid_chars, "bond_extra": extra,
             "followers": followers, "two_letter": two, "sha256": sha[:16]}
